@@ -414,6 +414,12 @@ func (pnf *PrevNextFinder) getPageDiff(pageURL, linkHref string, skip int) (int,
 		}
 	}
 
+	// The first difference may lie inside a number (page 10 vs. page 11 share
+	// the digit 1): compare the whole numbers, not only their differing tails.
+	for commonLen > skip && commonLen <= maxLimit && pageURL[commonLen-1] >= '0' && pageURL[commonLen-1] <= '9' {
+		commonLen--
+	}
+
 	var urlAsNumber int
 	if str := rxNumberAtStart.FindString(pageURL[commonLen:]); str != "" {
 		urlAsNumber, _ = strconv.Atoi(str)
